@@ -67,7 +67,7 @@ def cell_value(doc, ctype, spec):
     if not rows or not k:
       return None
     ids = [rows[(n + i) % len(rows)] for i in range(k)]
-    if n % 4 == 3:
+    if n % 2 == 0:
       ids = ids + ids[:1]          # the same target listed twice (the client does not de-duplicate)
     return ['L'] + ids
   if base == 'Any':
@@ -354,10 +354,24 @@ def r_update(doc, op):
   vals = op['vals'] or [[0, 1, 'a']]
   cv = {}
   j = 0
+  current = None
   for c in chosen:
     cv[c['colId']] = []
     for i in rows:
-      cv[c['colId']].append(cell_value(doc, c['type'], vals[j % len(vals)])); j += 1
+      spec = vals[j % len(vals)]
+      v = cell_value(doc, c['type'], spec); j += 1
+      if c['type'].split(':')[0] in ('RefList', 'ChoiceList') and int(spec[1]) % 2 == 1:
+        # edit of the list the cell holds now (drop an item / reorder), as a user editing the cell would
+        if current is None:
+          current = doc.fetch_repr(t['tableId'])
+        try:
+          cur = current[3][c['colId']][current[2].index(i)]
+        except Exception:
+          cur = None
+        if isinstance(cur, list) and cur[:1] == ['L'] and len(cur) > 2:
+          items = cur[1:]
+          v = ['L'] + (items[1:] if int(spec[0]) % 2 else list(reversed(items))[:-1])
+      cv[c['colId']].append(v)
   if len(rows) == 1 and int(op['b']) % 2:
     return ['UpdateRecord', t['tableId'], rows[0], {c: v[0] for c, v in cv.items()}]
   return ['BulkUpdateRecord', t['tableId'], rows, cv]
@@ -400,7 +414,7 @@ def r_addfcol(doc, op):
 def r_addref(doc, op):
   t = _tables(doc, op['a'], include_summary=False)
   # now and then the target is a summary table (a reference to a group)
-  tgt = _tables(doc, op['b'], include_summary=(int(op['c']) % 5 == 4))
+  tgt = _tables(doc, op['b'], include_summary=(int(op['c']) % 3 == 2))
   if not t or not tgt: return None
   typ = ('RefList:' if int(op['c']) % 2 else 'Ref:') + tgt['tableId']
   return ['AddColumn', t['tableId'], _name(COL_NAMES, op['name']), {'type': typ, 'isFormula': False}]
@@ -553,6 +567,8 @@ def r_rmsection(doc, op):
   if int(op.get('c', 0)) % 4:
     secs = [s for s in secs if s['parentId']]
   if not secs: return None
+  if int(op.get('b', 0)) % 2:
+    return ['RemoveViewSection', secs[-1]['id']]       # the most recently created widget
   return ['RemoveViewSection', secs[int(op['a']) % len(secs)]['id']]
 
 
@@ -644,6 +660,9 @@ def r_filter(doc, op):
   """Save a column filter on a view section (a _grist_Filters record), as the client's 'save filter' does."""
   fields = [f for f in doc.meta('_grist_Views_section_field') if f['parentId'] and f['colRef']]
   if not fields: return None
+  if int(op['c']) % 2:
+    last = max(f['parentId'] for f in fields)          # a column of the most recently created widget
+    fields = [f for f in fields if f['parentId'] == last]
   f = fields[int(op['a']) % len(fields)]
   existing = [x for x in doc.meta('_grist_Filters') if x['viewSectionRef'] == f['parentId'] and x['colRef'] == f['colRef']]
   spec = ['{"excluded": [1]}', '{"included": ["a", 2]}', '{"excluded": []}'][int(op['b']) % 3]
@@ -899,6 +918,10 @@ PROFILES = {
                'rmcol': 1, 'rencol': 1},
   # same-table formula chains across rows (evaluation-order sensitive)
   'rowchains': {'addfcol': 14, 'modformula': 8, 'add': 8, 'update': 10, 'remove': 4, 'toggle': 1, 'addcol': 2},
+  # widgets: summary and plain sections with saved sort and filters, created and removed again
+  'widgets': {'summary': 10, 'addsection': 5, 'addview': 3, 'filter': 10, 'sortspec': 5, 'rmsection': 8, 'rmview': 4,
+              'summaryupd': 4, 'detach': 2, 'add': 5, 'update': 5, 'remove': 2, 'rmcol': 4, 'rencol': 3, 'modtype': 2,
+              'addcol': 2, 'addfcol': 2, 'rentable': 1, 'rmtable': 1, 'displaycol': 2, 'rule': 2},
   'records': {
     'add': 12, 'update': 12, 'remove': 6, 'replace': 1, 'addcol': 1, 'addfcol': 2, 'bad': 1,
   },
@@ -967,6 +990,18 @@ def prelude(focus=None):
       'chain': st.tuples(st.just(40), small, small, small).map(list),
       'peers': st.lists(st.integers(0, 4), min_size=2, max_size=4),
     })
+  if focus == 'widgets':
+    # a summary widget (own page) with a saved filter and sort on it, and a second plain widget: what the removal
+    # of widgets / pages / columns has to clean up in more than one round
+    return st.fixed_dictionaries({
+      'types': st.lists(st.integers(0, len(DATA_TYPES) - 1), min_size=2, max_size=4),
+      'types2': st.lists(st.integers(0, len(DATA_TYPES) - 1), min_size=1, max_size=3),
+      'ref': st.sampled_from([0, 1, 3]),
+      'rows': st.lists(st.lists(valspec(), min_size=1, max_size=4), min_size=1, max_size=4),
+      'rows2': st.lists(st.lists(valspec(), min_size=1, max_size=4), min_size=0, max_size=3),
+      'formulas': st.lists(st.tuples(st.integers(0, 1), fspec()).map(list), min_size=0, max_size=2),
+      'widgets': st.tuples(st.integers(1, 15), st.integers(0, 7), st.integers(0, 7)).map(list),
+    })
   return st.fixed_dictionaries({
     'types': st.lists(st.integers(0, len(DATA_TYPES) - 1), min_size=2, max_size=4),
     'types2': st.lists(st.integers(0, len(DATA_TYPES) - 1), min_size=1, max_size=3),
@@ -1012,6 +1047,15 @@ def run_prelude(doc, p):
       continue
     doc.apply([['AddColumn', tid, 'F%d' % i, {'type': 'Any', 'isFormula': True,
                                                'formula': formula_text(doc, tm[0]['id'], fs)}]])
+  if p.get('widgets'):
+    mask, a, b = [int(x) for x in p['widgets']]
+    for kind, opd in (('summary', {'k': 'summary', 'a': 0, 'b': mask, 'c': 0}),
+                      ('filter', {'k': 'filter', 'a': a, 'b': b, 'c': 1}),
+                      ('sortspec', {'k': 'sortspec', 'a': 0, 'b': mask, 'c': a}),
+                      ('addsection', {'k': 'addsection', 'a': b, 'b': a, 'c': 1})):
+      ua = RESOLVERS[kind](doc, opd)
+      if ua:
+        doc.apply([ua])
   if p.get('chain'):
     tm = [t for t in doc.tables_meta() if t['tableId'] == 'Alpha']
     if tm and any(c['colId'] == 'F0' for c in doc.columns(tm[0]['id'])):
